@@ -10,7 +10,7 @@ Models: `Model/Font.lean` (src/fonts.rs + the `CTerm:Font:` DCS payload of dcs.r
 (src/tdf_font/mod.rs), both of the repaired tree.  `WfFont f h` covers every font of the property's quantifier
 (width 8, height 1..=32, 256 or 512 glyphs) and more (any complete table of up to 55296 glyphs, heights up to 255).
 Container byte layouts of XBin/ADF/IDF/IcyDraw are C05's `Model/BinFormats.lean` and C07's `Model/IcyDraw.lean`; the
-container theorems below (`font_block_position`, `xb_font_rt_partial`, `adf_font_rt`, `idf_font_rt`,
+container theorems below (`font_block_position`, `xb_font_rt`, `xb_font_rt_nosauce_partial`, `adf_font_rt`, `idf_font_rt`,
 `adf_idf_font_rt_nosauce_partial`, `icy_font_rt`) are stated ON those models (`Model/FontBox.lean` says how a `BitFont` goes
 in and comes out), for all palettes, flags, pictures and layers next to the font. -/
 namespace IcyVerif.C17
@@ -182,21 +182,32 @@ theorem font_block_position (f : Fmt) (o : Opts) (date : List Nat) (p : Pic) (by
     ∀ b ∈ fontBlocks f o p, ∃ font, lookupFont p.fonts b.1 = some font ∧ (bytes.drop b.2.1).take b.2.2 = font.data :=
   font_blocks_hold f o date p bytes h
 
-/-- **XBin** (corollary of C05 `xb_roundtrip`; one font, or two in the 512-character mode; heights 1..=32; every 16-colour
-    6-bit palette; blink / ice; compressed / raw; every representable picture): every font in use comes back glyph for glyph.
-    PARTIAL — the full statement is the same for every font NAME and without the last alternative of `hs`; excluded:
-    (1) a font NAMED like the built-in default font but with other glyphs (`Representable` → `fontOk`): the writer decides
-        by name whether to embed (finding `xbin_font_named_default`, witness `xb_named_default_violates`);
-    (2) a file saved WITHOUT a SAUCE record whose last 128 bytes read as one (C05 finding `xb:content-reads-as-sauce`). -/
-theorem xb_font_rt_partial (o : Opts) (date : List Nat) (p : Pic) (hrep : Representable .xb o p = true)
+/-- **XBin**, saved with a SAUCE record (corollary of C05 `xb_roundtrip`; one font, or two in the 512-character mode; heights
+    1..=32; every 16-colour 6-bit palette; blink / ice; compressed / raw; every representable picture): every font in use
+    comes back glyph for glyph.  FULL strength since `fix: BitFont::is_default compares the glyphs`: whatever the font is
+    NAMED (the former exclusion `xbin_font_named_default` is gone — `Representable` no longer says anything about names;
+    the former counterexample is `xb_named_default_embedded` below). -/
+theorem xb_font_rt (o : Opts) (date : List Nat) (p : Pic) (hrep : Representable .xb o p = true)
+    (hdate : dateOk date = true) (hs : o.sauce = true) :
+    ∃ bytes g, save .xb o date p = .ok bytes ∧ fromBytes .xb bytes = .ok g ∧
+        ∀ slot ∈ analyzeFontUsage p.rows.flatten, ∀ (name : List Nat) (f : BitFont) (h : Nat), WfFont f h →
+          f.glyphs.length = 256 → lookupFont p.fonts slot = boxFont name f → FontBack g slot f := by
+  obtain ⟨bytes, h1, h2⟩ := xb_font_roundtrip o date p hrep hdate
+  obtain ⟨g, h3, h4⟩ := h2 (Or.inl hs)
+  exact ⟨bytes, g, h1, h3, fun slot hs name f h wf h256 hp => h4 slot hs name f h wf h256 (by rw [hp, boxFont_wf name f h wf])⟩
+
+/-- XBin saved WITHOUT a SAUCE record.  PARTIAL — full statement: the same without `looksLikeSauce bytes = false`;
+    excluded: a file whose last 128 bytes (picture content) read as a SAUCE record (C05 finding
+    `xb:content-reads-as-sauce`, a property of the container, not of the font block). -/
+theorem xb_font_rt_nosauce_partial (o : Opts) (date : List Nat) (p : Pic) (hrep : Representable .xb o p = true)
     (hdate : dateOk date = true) :
     ∃ bytes, save .xb o date p = .ok bytes ∧
-      ((o.sauce = true ∨ looksLikeSauce bytes = false) → ∃ g, fromBytes .xb bytes = .ok g ∧
+      (looksLikeSauce bytes = false → ∃ g, fromBytes .xb bytes = .ok g ∧
         ∀ slot ∈ analyzeFontUsage p.rows.flatten, ∀ (name : List Nat) (f : BitFont) (h : Nat), WfFont f h →
           f.glyphs.length = 256 → lookupFont p.fonts slot = boxFont name f → FontBack g slot f) := by
   obtain ⟨bytes, h1, h2⟩ := xb_font_roundtrip o date p hrep hdate
   refine ⟨bytes, h1, fun hor => ?_⟩
-  obtain ⟨g, h3, h4⟩ := h2 hor
+  obtain ⟨g, h3, h4⟩ := h2 (Or.inr hor)
   exact ⟨g, h3, fun slot hs name f h wf h256 hp => h4 slot hs name f h wf h256 (by rw [hp, boxFont_wf name f h wf])⟩
 
 /-- **ArtWorx ADF**, saved with a SAUCE record: FULL strength — every 8x16 font of 256 glyphs, whatever its name, next to
@@ -278,14 +289,17 @@ example : (match save .xb ⟨true, true⟩ boxDate xbBoxPic with
       | _ => false)
     | _ => false) = true := by decide +kernel
 
-/-- **Excluded from `xb_font_rt_partial`, and really false:** an 8x16 font NAMED like the built-in default font whose
-    glyphs are all zero is not embedded (no font block, flag clear) and the built-in glyphs are read back. -/
+/-- **The former counterexample** (finding `xbin_font_named_default`, repaired): an 8x16 font NAMED like the built-in
+    default font whose glyphs are all zero is in the domain of `xb_font_rt`, IS embedded (font block behind the header,
+    flag set) and its own glyphs are read back — not the built-in ones.  And the built-in font itself is still left out. -/
 def namedPic : Pic := ⟨1, 1, [[⟨0x41, ⟨7, 0, 0, 0⟩⟩]], .blink, dosPalette, [(0, ⟨BinFmt.defaultFontName, 16, List.replicate 4096 0⟩)]⟩
-theorem xb_named_default_violates :
-    fontBlocks .xb ⟨true, false⟩ namedPic = [] ∧
+def builtinPic : Pic := ⟨1, 1, [[⟨0x41, ⟨7, 0, 0, 0⟩⟩]], .blink, dosPalette, [(0, defaultFont)]⟩
+theorem xb_named_default_embedded :
+    (Representable .xb ⟨true, false⟩ namedPic = true ∧ fontBlocks .xb ⟨true, false⟩ namedPic = [(0, 11, 4096)] ∧
+      fontBlocks .xb ⟨true, false⟩ builtinPic = []) ∧
     (match save .xb ⟨true, false⟩ boxDate namedPic with
      | .ok b => (match fromBytes .xb b with
-       | .ok g => (lookupFont g.fonts 0).map (·.data) == some BinFmt.defaultFontData && BinFmt.defaultFontData != List.replicate 4096 0
+       | .ok g => (lookupFont g.fonts 0).map (·.data) == some (List.replicate 4096 0) && BinFmt.defaultFontData != List.replicate 4096 0
        | _ => false)
      | _ => false) = true := by
   constructor <;> decide +kernel
